@@ -96,7 +96,7 @@ def gen_case(rng, tier, index):
         sel = [c * rows + r for r in rws]
         tips = sorted(rng.sample(range(1, 9), k))
         return {"rows": rows, "cols": cols, "sel": sel, "via": via, "tips": tips,
-                "trough": rows <= 16 and rng.random() < 0.25}
+                "trough": rows <= 16 and rng.random() < 0.25, "after_refusal": rng.random() < 0.2}
     mode = rng.choice(["density", "density", "few", "most", "column", "row", "stripe"])
     if mode == "density":
         p = rng.choice([0.02, 0.1, 0.3, 0.5, 0.5, 0.7, 0.9, 0.98])
@@ -198,6 +198,17 @@ def _produce(ctx, case):
                 lw = robotools.Labware("T", rows, cols, min_volume=0, max_volume=1_000_000, initial_volumes=1000)
             wl = robotools.EvoWorklist(None, max_volume=950)
             vols = [float(10 + i) for i in range(len(ids))]
+            if case.get("after_refusal"):
+                # the command builders were used a moment ago: a command for another well, then this very command
+                # with the row count as a float (8.0 rows: refused) - the corrected call follows
+                cmd = getattr(evo_cmd, via)
+                common = dict(labware_position=(10, 2), liquid_class="lc", n_columns=lw.n_columns)
+                try:
+                    cmd(n_rows=lw.n_rows, wells=[wid(0, cols - 1)], volume=[5.0], tips=[1], **common)
+                    cmd(n_rows=float(lw.n_rows), wells=ids, volume=vols, tips=list(case["tips"]), **common)
+                    ctx.count("command_with_float_row_count:accepted")
+                except Exception:
+                    ctx.count("command_with_float_row_count:refused")
             getattr(wl, via)(lw, ids, (10, 2), list(case["tips"]), vols, "lc")
             recs = [r for r in wl if isinstance(r, str) and r.startswith("B;") and len(r) > 2]
             info["records"] = list(wl)
